@@ -29,6 +29,8 @@ func init() {
 			"both keys derive from all their documented components; sharing is dominated by the query-only eligibility tests; every wait on a shared record can also leave through the participant's own context; " +
 			"and (context provenance) whether a follower can return the leader's cancellation verbatim. It does not decide byte equality of what participants receive.",
 		Mutants: []Mutant{
+			{Name: "single-flight leader no longer stores its error in the shared item (the retired seed C07-21)", File: "v2/pkg/engine/resolve/loader.go", Rule: "C11-R14", Key: "Loader.loadByContext/leader-publishes-error",
+				Old: "\t\titem.err = err\n\t\t// the leader's own context ended", New: "\t\t// the leader's own context ended"},
 			{Name: "the request extensions are left out of the inbound key again (reverts the F79 fix)", File: inboundGo, Rule: "C11-R13", Key: "Context.Extensions/fed-to-the-inbound-key",
 				Old: "\t_, _ = h.Write(ctx.Extensions)\n", New: ""},
 			{Name: "the inbound leader no longer finishes its request when it panics (reverts the F64 fix)", File: resolveGo, Rule: "C11-R12", Key: "Resolver.ArenaResolveGraphQLResponse/leader-finish-survives-panic",
@@ -76,6 +78,7 @@ func init() {
 
 func runC11(r *fw.Run) {
 	defer c11LeaderWriteErrorIsNotShared(r)
+	defer c11SubgraphLeaderPublishesOutcome(r)
 	defer c11OperationTypeFromSchemaRoots(r)
 	defer c11LeaderFinishSurvivesPanic(r)
 	defer c11InboundKeyCoversLateInjections(r)
@@ -1652,4 +1655,54 @@ func c11InboundKeyCoversLateInjections(r *fw.Run) {
 			"Context."+f+" reaches every subgraph request but is not part of the inbound single-flight key: of two concurrent client requests that differ only in it the follower receives the leader's answer (`{\"tenant\":\"B\"}` is answered with the data of tenant A)")
 	}
 	r.Expect("C11-R13", "Context fields injected into subgraph requests", n, 1)
+}
+
+// c11SubgraphLeaderPublishesOutcome (R14): requests de-duplicated by the subgraph single flight share the leader's outcome. After
+// the leader has arranged the wake-up (defer singleFlight.Finish(item)), every exit must have published what the followers
+// read after the wake-up: an exit that returns an error has assigned item.err, an exit that returns nil has assigned
+// item.response. A follower of a leader that forgot item.err sees neither error nor response and renders "Failed to fetch
+// …, Reason: empty response" where on its own it would have rendered the failure of the shared work: other bytes than it
+// would have received alone. (The rule was C07-R9 until F95: then an empty response was not recorded as a failed fetch and
+// the dependants were sent with null representations; that consequence is gone, the C11 one is not.)
+func c11SubgraphLeaderPublishesOutcome(r *fw.Run) {
+	p := r.Prog
+	r.Rule("C11-R14", "after the single-flight leader has deferred Finish(item), every exit that returns an error has assigned item.err and every exit that returns nil has assigned item.response (what the followers read after the wake-up)")
+	fi := p.Func("resolve", "Loader.loadByContext")
+	if fi == nil {
+		r.Error("C11-R14: Loader.loadByContext not found")
+		return
+	}
+	info := fi.Info()
+	n := 0
+	in := fw.NewInterp(fi)
+	in.H = fw.Hooks{
+		Node: func(nd ast.Node, st *fw.State) {
+			if d, ok := nd.(*ast.DeferStmt); ok && fw.CallIs(info, d.Call, "resolve", "SubgraphRequestSingleFlight.Finish") {
+				st.Set("leader")
+			}
+			for _, t := range fw.WriteTargets(info, nd) {
+				if fw.IsFieldSel(info, t, "resolve", "SingleFlightItem", "err") {
+					st.Set("published-err")
+				}
+				if fw.IsFieldSel(info, t, "resolve", "SingleFlightItem", "response") {
+					st.Set("published-response")
+				}
+			}
+		},
+		Exit: func(ret *ast.ReturnStmt, lit *ast.FuncLit, st *fw.State) {
+			if lit != nil || ret == nil || !in.Final() || !st.Must("leader") || len(ret.Results) != 1 {
+				return
+			}
+			n++
+			if id, ok := ast.Unparen(ret.Results[0]).(*ast.Ident); ok && id.Name == "nil" && info.Uses[id] == types.Universe.Lookup("nil") {
+				r.Check(st.Must("published-response"), "C11-R14", "Loader.loadByContext/leader-publishes-response#"+itoa(n), p.Pos(ret.Pos()), "the leader's success exit has assigned item.response",
+					"the leader returns success without having stored the response in the shared item: its followers wake up with an empty response")
+				return
+			}
+			r.Check(st.Must("published-err"), "C11-R14", "Loader.loadByContext/leader-publishes-error#"+itoa(n), p.Pos(ret.Pos()), "the leader's error exit has assigned item.err",
+				"the leader returns an error without having stored it in the shared item: its followers wake up with neither an error nor a response and report an empty response instead of the failure of the shared work — not the bytes they would have received on their own")
+		},
+	}
+	in.Run(nil)
+	r.Expect("C11-R14", "exits of the single-flight leader", n, 2)
 }
